@@ -47,6 +47,10 @@ struct P {
     r2: Option<Lm>,
     /// sibling reader under the SAME subscriber (one DATA => two changes in one processing pass)
     r3: Option<Lm>,
+    /// base levels (0 a_dp, 1 a_pub, 2 a_w, 3 b_dp, 4 b_sub, 5 b_r) created WITHOUT a listener object although
+    /// their mask is given: per DDS 1.4 2.2.4.2.3 a nil listener with an enabled status behaves as a no-op
+    /// listener, i.e. it consumes the status and nobody else is called
+    nil_levels: Vec<u8>,
     rbad: Option<Lm>,
     deadline: bool,
     limit: bool,
@@ -95,6 +99,7 @@ fn gen_params(rng: &mut Rng, thorough: bool) -> P {
         b_r: gen_lm(rng, &R_KINDS, focus),
         r2: if rng.chance(0.4) { Some(gen_lm(rng, &R_KINDS, None)) } else { None },
         r3: None,
+        nil_levels: Vec::new(),
         rbad: if rng.chance(0.5) { Some(gen_lm(rng, &R_KINDS, None)) } else { None },
         deadline: false,
         limit: false,
@@ -109,6 +114,18 @@ fn gen_params(rng: &mut Rng, thorough: bool) -> P {
     p.limit = feature == 2 || feature == 3;
     // drawn last so that the earlier parameters of a case do not depend on it
     p.r3 = if rng.chance(0.4) { Some(gen_lm(rng, &R_KINDS, None)) } else { None };
+    if rng.chance(0.3) {
+        let levels = [&p.a_dp, &p.a_pub, &p.a_w, &p.b_dp, &p.b_sub, &p.b_r];
+        let cands: Vec<u8> = (0..6u8).filter(|i| matches!(levels[*i as usize], Some(m) if !m.is_empty())).collect();
+        for _ in 0..1 + rng.below(2) {
+            if !cands.is_empty() {
+                let c = *rng.pick(&cands);
+                if !p.nil_levels.contains(&c) {
+                    p.nil_levels.push(c);
+                }
+            }
+        }
+    }
     p
 }
 
@@ -129,6 +146,7 @@ impl P {
             .set("subscriber_listener_mask", lm_json(&self.b_sub))
             .set("reader_listener_mask", lm_json(&self.b_r))
             .set("second_reader_under_listenerless_subscriber", match &self.r2 { None => Json::s("absent"), Some(l) => lm_json(l) })
+            .set("levels_with_mask_but_nil_listener(0 a_dp,1 a_pub,2 a_w,3 b_dp,4 b_sub,5 b_r)", self.nil_levels.iter().map(|x| Json::from(*x as i64)).collect::<Vec<_>>())
             .set("sibling_reader_under_the_same_subscriber", match &self.r3 { None => Json::s("absent"), Some(l) => lm_json(l) })
             .set("incompatible_reader(TRANSIENT_LOCAL)_under_subscriber", match &self.rbad { None => Json::s("absent"), Some(l) => lm_json(l) })
             .set("deadline_600ms", self.deadline)
@@ -202,21 +220,21 @@ async fn scenario(w: World, p: P) -> Out {
     }
     let dl = if p.deadline { finite_ms(DEADLINE_MS) } else { dust_dds::infrastructure::time::DurationKind::Infinite };
     // writer side
-    let dp_a = api!(w.factory.create_participant(0, QosKind::Default, opt_rec(&p.a_dp, &log, &sh, L_PARTICIPANT, 0), mask_of(&p.a_dp)), "create_participant");
+    let dp_a = api!(w.factory.create_participant(0, QosKind::Default, (if p.nil_levels.contains(&0) { None } else { opt_rec(&p.a_dp, &log, &sh, L_PARTICIPANT, 0) }), mask_of(&p.a_dp)), "create_participant");
     let topic_a = new_topic::<Msg>(&dp_a, "Routing", "Msg").await;
-    let pb = api!(dp_a.create_publisher(QosKind::Default, opt_rec(&p.a_pub, &log, &sh, L_GROUP, 0), mask_of(&p.a_pub)), "create_publisher");
+    let pb = api!(dp_a.create_publisher(QosKind::Default, (if p.nil_levels.contains(&1) { None } else { opt_rec(&p.a_pub, &log, &sh, L_GROUP, 0) }), mask_of(&p.a_pub)), "create_publisher");
     let wq = DataWriterQos {
         reliability: reliable(1000),
         history: keep_all(),
         deadline: DeadlineQosPolicy { period: dl },
         ..Default::default()
     };
-    let dw = api!(pb.create_datawriter::<Msg>(&topic_a, QosKind::Specific(wq), opt_rec(&p.a_w, &log, &sh, L_ENTITY, 0), mask_of(&p.a_w)), "create_datawriter");
+    let dw = api!(pb.create_datawriter::<Msg>(&topic_a, QosKind::Specific(wq), (if p.nil_levels.contains(&2) { None } else { opt_rec(&p.a_w, &log, &sh, L_ENTITY, 0) }), mask_of(&p.a_w)), "create_datawriter");
     out.h_w = dw.get_instance_handle().into();
     // reader side
-    let dp_b = api!(w.factory.create_participant(0, QosKind::Default, opt_rec(&p.b_dp, &log, &sh, L_PARTICIPANT, 1), mask_of(&p.b_dp)), "create_participant");
+    let dp_b = api!(w.factory.create_participant(0, QosKind::Default, (if p.nil_levels.contains(&3) { None } else { opt_rec(&p.b_dp, &log, &sh, L_PARTICIPANT, 1) }), mask_of(&p.b_dp)), "create_participant");
     let topic_b = new_topic::<Msg>(&dp_b, "Routing", "Msg").await;
-    let sb = api!(dp_b.create_subscriber(QosKind::Default, opt_rec(&p.b_sub, &log, &sh, L_GROUP, 1), mask_of(&p.b_sub)), "create_subscriber");
+    let sb = api!(dp_b.create_subscriber(QosKind::Default, (if p.nil_levels.contains(&4) { None } else { opt_rec(&p.b_sub, &log, &sh, L_GROUP, 1) }), mask_of(&p.b_sub)), "create_subscriber");
     out.h_sub = sb.get_instance_handle().into();
     let mut rq = DataReaderQos {
         reliability: reliable(1000),
@@ -231,7 +249,7 @@ async fn scenario(w: World, p: P) -> Out {
             max_samples_per_instance: Length::Limited(2),
         };
     }
-    let dr = api!(sb.create_datareader::<Msg>(&topic_b, QosKind::Specific(rq), opt_rec(&p.b_r, &log, &sh, L_ENTITY, 1), mask_of(&p.b_r)), "create_datareader");
+    let dr = api!(sb.create_datareader::<Msg>(&topic_b, QosKind::Specific(rq), (if p.nil_levels.contains(&5) { None } else { opt_rec(&p.b_r, &log, &sh, L_ENTITY, 1) }), mask_of(&p.b_r)), "create_datareader");
     out.h_r = dr.get_instance_handle().into();
     let mut dr2 = None;
     let mut _sb2 = None;
@@ -367,11 +385,19 @@ fn lname(l: Option<u8>, reader_side: bool) -> &'static str {
 }
 
 /// Most specific level whose listener exists and whose mask enables `k`.
+thread_local! {
+    /// addresses of the `Lm` fields (of the `P` being judged) whose level has a mask but a nil listener
+    static NIL: std::cell::RefCell<Vec<usize>> = const { std::cell::RefCell::new(Vec::new()) };
+}
+fn is_nil(l: &Lm) -> bool {
+    NIL.with(|n| n.borrow().contains(&(l as *const Lm as usize)))
+}
 fn expected_level(chain: &[&Lm; 3], k: StatusKind) -> Option<u8> {
     for (i, l) in chain.iter().enumerate() {
         if let Some(m) = l {
             if m.contains(&k) {
-                return Some(i as u8);
+                // a nil listener whose mask enables the status consumes it: nobody is called
+                return if is_nil(l) { None } else { Some(i as u8) };
             }
         }
     }
@@ -432,6 +458,10 @@ impl Judge<'_> {
 
 fn evaluate(rep: &mut Report, p: &P, o: &Out, replay: &Json, poll_hash: u64, case: u64) {
     let mut j = Judge { rep: &mut *rep, replay, fired: BTreeSet::new() };
+    {
+        let levels = [&p.a_dp, &p.a_pub, &p.a_w, &p.b_dp, &p.b_sub, &p.b_r];
+        NIL.with(|n| *n.borrow_mut() = p.nil_levels.iter().map(|i| levels[*i as usize] as *const Lm as usize).collect());
+    }
     let none: Lm = None;
     let w_chain: [&Lm; 3] = [&p.a_w, &p.a_pub, &p.a_dp];
     let r_chain: [&Lm; 3] = [&p.b_r, &p.b_sub, &p.b_dp];
@@ -509,7 +539,7 @@ fn evaluate(rep: &mut Report, p: &P, o: &Out, replay: &Json, poll_hash: u64, cas
             }
             let dor_enabled = matches!(chain[1], Some(m) if m.contains(&StatusKind::DataOnReaders));
             let (status, exp) = if dor_enabled {
-                ("DataOnReaders", Some(L_GROUP))
+                ("DataOnReaders", if is_nil(chain[1]) { None } else { Some(L_GROUP) })
             } else {
                 ("DataAvailable", expected_level(chain, StatusKind::DataAvailable))
             };
@@ -568,6 +598,7 @@ fn evaluate(rep: &mut Report, p: &P, o: &Out, replay: &Json, poll_hash: u64, cas
         .set("b", vec![lm_json(&p.b_dp), lm_json(&p.b_sub), lm_json(&p.b_r)])
         .set("r2", p.r2.as_ref().map(lm_json))
         .set("r3", p.r3.as_ref().map(lm_json))
+        .set("nil", p.nil_levels.iter().map(|x| Json::from(*x as i64)).collect::<Vec<_>>())
         .set("rbad", p.rbad.as_ref().map(lm_json))
         .set("f", vec![p.deadline, p.limit]);
     let mut h = vcore::fnv_str(&cfg.to_string());
